@@ -189,7 +189,8 @@ def _r2(w: World, rep: Report, eff: Effects):
     for key, summ in eff.summary.items():
         for wr in summ.values():
             root = wr.path.split('.')[0].split('[')[0]
-            if root.startswith('::') and not root.startswith('::default:') and root[2:] in REGISTRIES:
+            if root.startswith('::') and not root.startswith('::default:'):
+                # any module-level container is process-global state, registry or not
                 writers.setdefault(key, []).append(wr)
     # direct rebinding of registry names via `global`
     for fi in w.repo.all_funcs(['functions', 'parsing', 'tools', 'classes']):
